@@ -44,6 +44,9 @@
 //	                                         gate `none` = a free race (offers hammering while the control connection drops)  => done
 //	ureq / ustorm / canon / ptear / gchurn   hostile USER traffic on the user-facing listeners, CanonicalHost, frpc teardown with active plugin
 //	                                         requests, ungated group churn: see eng_crash_user.go
+//	ostorm                                   concurrent logins / pings / work connections against a frps with auth.method = oidc: see eng_crash_oidc.go
+//	maxports                                 a session refused for max_ports_per_client goes on and reconnects: see eng_crash_limits.go
+//	ssh / sstorm                             hostile ssh clients on the ssh tunnel gateway: see eng_crash_ssh.go
 //	relogin / gleave / routes / nstorm / pstorm / swc / closerace   wedges, valid nat-hole storms, hostile server frames for frpc, user datagrams
 //	                                         against a closing udp proxy: see eng_crash_wedge.go
 //	stat                                     what the server answered so far (coverage evidence only;
@@ -165,7 +168,9 @@ func crashSpawnOnce() error {
 		p.errMu.Lock()
 		es := p.errBuf.String()
 		p.errMu.Unlock()
-		fmt.Fprintf(os.Stderr, "crash child not ready: %q %v\n%s\n", line, err, es[:min(len(es), 3000)])
+		if os.Getenv("VERIF_CRASH_DEBUG") != "" { // the runner reads stderr as part of the trace: a start that is retried must not leave lines there
+			fmt.Fprintf(os.Stderr, "crash child not ready: %q %v\n%s\n", line, err, es[:min(len(es), 3000)])
+		}
 		crashKill()
 		return fmt.Errorf("child not ready: %q %v", line, err)
 	}
@@ -293,7 +298,7 @@ func crashSettle(tok []string) time.Duration {
 		}
 	case "storm", "cstorm", "race6", "stun", "negpool":
 		return 50 * time.Millisecond
-	case "wconn", "wstorm", "tear", "nstorm", "closerace", "pstorm", "ustorm":
+	case "wconn", "wstorm", "tear", "nstorm", "closerace", "pstorm", "ustorm", "ostorm":
 		return 80 * time.Millisecond
 	case "ureq":
 		return 5 * time.Millisecond // the listener's goroutine may die right after the connection was closed
@@ -405,6 +410,7 @@ func crashPortWindow() int {
 func crashStart() *crashWorld {
 	w := &crashWorld{conns: map[string]*crashConn{}, gates: map[string]*crashGate{}}
 	verifhook.Set(w.gateHook)
+	crashSSHW = crashSSHPrepare()
 	var svr *server.Service
 	var err error
 	for attempt := 0; attempt < 5; attempt++ {
@@ -423,6 +429,7 @@ func crashStart() *crashWorld {
 		cfg.Transport.HeartbeatTimeout = 90
 		cfg.UserConnTimeout = 2
 		cfg.MaxPortsPerClient = 0
+		crashSSHW.configureA(cfg) // the ssh tunnel gateway, no authorizedKeysFile (eng_crash_ssh.go)
 		cfg.Complete()
 		svr, err = server.NewService(cfg)
 		if err != nil {
@@ -437,6 +444,7 @@ func crashStart() *crashWorld {
 	}
 	w.svr = svr
 	go svr.Run(context.Background())
+	crashSSHW.startB()
 
 	cc := &v1.ClientCommonConfig{}
 	cc.ServerAddr, cc.ServerPort = "127.0.0.1", w.port
@@ -1201,6 +1209,20 @@ func crashChildExec(w *crashWorld, tok []string) string {
 		return w.ptear(tok[1], tok[2] == "1", tok[3], atoi(tok[4]))
 	case "gchurn":
 		return w.gchurn(tok[1], tok[2], atoi(tok[3]))
+	case "ssh":
+		if len(tok) < 3 {
+			return "badop"
+		}
+		return w.sshOp(tok[1], tok[2], tok[3:])
+	case "sstorm":
+		seed, _ := strconv.ParseInt(tok[1], 10, 64)
+		return w.sstorm(seed, atoi(tok[2]), atoi(tok[3]))
+	case "maxports":
+		v, _ := strconv.ParseInt(tok[2], 10, 64)
+		return w.maxports(tok[1], v)
+	case "ostorm":
+		seed, _ := strconv.ParseInt(tok[1], 10, 64)
+		return w.ostorm(seed, atoi(tok[2]), atoi(tok[3]))
 	case "stat":
 		byRun, names := w.svr.VerifSessDump()
 		crashCntMu.Lock()
@@ -1208,7 +1230,9 @@ func crashChildExec(w *crashWorld, tok []string) string {
 		ks := []string{"loginOK", "proxyOK", "proxyRefused", "pong", "pongErr", "natResp", "reqWork", "workOffered", "workStarted",
 			"workFrames", "udpMarker", "visitorOK", "visitorRefused", "tearParked", "tearOfferClosed", "tearOfferPooled",
 			"reloginParked", "gleaveParked", "wdGroupOK", "wdGroupRefused", "natSent", "swc", "closeraceSent", "pstormSent", "routesOK", "routesRefused",
-			"userReq", "userAnswered", "ptearCut", "ptearOK", "gchurnRounds"}
+			"userReq", "userAnswered", "ptearCut", "ptearOK", "gchurnRounds",
+			"sshConn", "sshOK", "sshReq", "sshUp", "sshEcho", "sshHelp", "sshErr",
+			"limSessions", "limRefused", "limReused", "limRelogin", "oidcLogin", "oidcPing", "oidcWork"}
 		out := []string{fmt.Sprintf("sessions=%d", len(byRun)), fmt.Sprintf("proxies=%d", len(names))}
 		for _, k := range ks {
 			out = append(out, fmt.Sprintf("%s=%d", k, crashCnt[k]))
@@ -1526,6 +1550,8 @@ func crashGen(rng *rand.Rand, n int, emit func(string)) {
 	crashGenUser(rng, emit)
 	crashGenPtear(rng, emit)
 	emit("watch")
+	// 1s. the ssh tunnel gateway: hostile ssh clients (eng_crash_ssh.go)
+	crashGenSSH(rng, emit)
 	// 1w. wedges: re-logins with a live / closing session's run id; a join racing the last leave of a group; valid nat-hole traffic
 	for i, g := range crashReloginGates {
 		k := 2 + (i+rng.Intn(2))%3
@@ -1536,6 +1562,9 @@ func crashGen(rng *rand.Rand, n int, emit func(string)) {
 		emit(fmt.Sprintf("gleave gl %s %d", kind, rng.Intn(1<<20)&^3)) // CloseProxy, right key
 		emit(fmt.Sprintf("gleave gl %s %d", kind, rng.Intn(1<<20)|1))  // connection drop (odd), right or wrong key
 	}
+	for i := 0; i < 6; i++ { // a session refused for max_ports_per_client goes on: every follow-up order once
+		emit(fmt.Sprintf("maxports mp %d", i<<3|rng.Intn(8)))
+	}
 	for _, kind := range crashGroupKinds {
 		emit(fmt.Sprintf("gchurn gc %s %d", kind, 200+rng.Intn(200))) // the same race without a gate: leave and join back to back, many rounds
 	}
@@ -1545,6 +1574,7 @@ func crashGen(rng *rand.Rand, n int, emit func(string)) {
 	}
 	emit(fmt.Sprintf("nstorm %d 8 400", rng.Intn(1<<20)))
 	emit(fmt.Sprintf("pstorm %d 8 300", rng.Intn(1<<20)))
+	emit(fmt.Sprintf("ostorm %d 16 120", rng.Intn(1<<20))) // auth.method = oidc: logins / pings / work connections through ONE verifier
 	for _, kind := range crashRaceKinds() {
 		emit(fmt.Sprintf("closerace cr %s %d %d", kind, 6+rng.Intn(6), 2+rng.Intn(4)))
 	}
@@ -1596,7 +1626,11 @@ func crashGen(rng *rand.Rand, n int, emit func(string)) {
 			k := 1 + rng.Intn(4)
 			emit(fmt.Sprintf("relogin %s %s %d %s %d", pick(rng, []string{"r1", "r2"}), pick(rng, crashReloginGates), k, crashPerm(rng, k), rng.Intn(6)))
 		case x < 25:
-			emit(fmt.Sprintf("routes %s %s %d", pick(rng, []string{"q1", "q2"}), pick(rng, []string{"http", "tcpmux"}), rng.Intn(1<<20)))
+			if rng.Intn(2) == 0 {
+				emit(fmt.Sprintf("maxports %s %d", pick(rng, []string{"m1", "m2"}), rng.Intn(1<<10)))
+			} else {
+				emit(fmt.Sprintf("routes %s %s %d", pick(rng, []string{"q1", "q2"}), pick(rng, []string{"http", "tcpmux"}), rng.Intn(1<<20)))
+			}
 		case x < 27:
 			if rng.Intn(3) == 0 {
 				emit(fmt.Sprintf("gchurn %s %s %d", pick(rng, []string{"g1", "g2"}), pick(rng, crashGroupKinds), 50+rng.Intn(350)))
@@ -1620,6 +1654,9 @@ func crashGen(rng *rand.Rand, n int, emit func(string)) {
 			} else {
 				emit("canon " + hx(crashUserHost(rng)))
 			}
+		case x < 37:
+			gw, auth, items := crashSSHScript(rng, 8)
+			emit(crashSSHLine(gw, auth, items))
 		case x < 70:
 			t := crashTypes[rng.Intn(len(crashTypes))]
 			if rng.Intn(2) == 0 {
@@ -1647,10 +1684,12 @@ func crashGen(rng *rand.Rand, n int, emit func(string)) {
 			}
 			if emitted%(3*stormEvery) == 0 {
 				emit(fmt.Sprintf("wstorm %d %d %d", rng.Intn(1<<20), 4+rng.Intn(8), 4+rng.Intn(12)))
+				emit(fmt.Sprintf("sstorm %d %d %d", rng.Intn(1<<20), 4+rng.Intn(6), 4+rng.Intn(8)))
 			}
 			if emitted%(4*stormEvery) == 0 {
 				emit(fmt.Sprintf("nstorm %d %d %d", rng.Intn(1<<20), 4+rng.Intn(8), 150+rng.Intn(300)))
 				emit(fmt.Sprintf("pstorm %d %d %d", rng.Intn(1<<20), 4+rng.Intn(8), 100+rng.Intn(300)))
+				emit(fmt.Sprintf("ostorm %d %d %d", rng.Intn(1<<20), 8+rng.Intn(12), 40+rng.Intn(80)))
 				emit(fmt.Sprintf("closerace %s %s %d %d", pick(rng, []string{"c1", "c2"}), pick(rng, crashRaceKinds()), 3+rng.Intn(8), 1+rng.Intn(6)))
 			}
 			emit("stat")
